@@ -292,7 +292,8 @@ Theorem init_participation_delta b mx owner amount fee b' idx effs :
   pool_parts b' = pool_parts b + (amount - fee) /\ fee_parts b' = fee_parts b + fee /\
   effs = [Pay owner POOL (amount - fee); Pay owner HOUSEFEE fee] /\
   bk_status b' = bk_status b /\ bk_status b = BK_ACTIVE /\
-  exists p, bk_parts b' = bk_parts b ++ [p] /\ p_settled p = false /\ p_profit p = 0 /\ p_owner p = owner.
+  exists p, bk_parts b' = bk_parts b ++ [p] /\ p_settled p = false /\ p_profit p = 0 /\ p_owner p = owner /\
+            p_idx p = idx /\ get_part b idx = None.
 Proof.
   unfold init_participation. intros H.
   destruct (negb (bk_status b =? BK_ACTIVE)) eqn:ES; [discriminate|]. apply negb_false_iff, Z.eqb_eq in ES.
@@ -305,7 +306,7 @@ Proof.
   assert (Hnone : find (part_is (bk_partcnt b + 1)) (bk_parts b) = None) by exact EG.
   rewrite (upd_absent_app _ _ _ Hnone). rewrite !map_app, !zsum_app. cbn [map zsum part_pool part_fee p_settled p_liq p_profit p_fee].
   repeat split; try lia; try assumption.
-  eexists. split; [reflexivity|]. cbn. repeat split.
+  eexists. split; [reflexivity|]. cbn. repeat split. exact EG.
 Qed.
 
 Lemma upd_map_first {A B} (f : A -> bool) (g : A -> B) (v x : A) (l : list A) :
@@ -315,7 +316,8 @@ Proof.
   destruct (f y) eqn:E; [inv H; cbn [map]; f_equal; symmetry; exact Hg|]. cbn [map]. f_equal. apply IH; assumption.
 Qed.
 
-Definition sproj (q : part) : Z * bool * Z := (p_idx q, p_settled q, p_profit q).
+Definition sproj (q : part) : Z * bool * Z * Z := (p_idx q, p_settled q, p_profit q, p_owner q).
+Definition iproj (q : part) : Z * Z := (p_idx q, p_owner q).
 
 (* ---- withdrawal --------------------------------------------------------------------------------------- *)
 Theorem withdraw_participation_delta b idx amt b' effs p :
@@ -354,7 +356,7 @@ Lemma set_part_profit_frame b p v : get_part b (p_idx p) = Some p -> all_unsettl
   pool_parts (set_part b (part_set_profit p v)) = pool_parts b - p_profit p + v /\
   fee_parts (set_part b (part_set_profit p v)) = fee_parts b /\
   bk_status (set_part b (part_set_profit p v)) = bk_status b /\
-  map p_idx (bk_parts (set_part b (part_set_profit p v))) = map p_idx (bk_parts b).
+  map iproj (bk_parts (set_part b (part_set_profit p v))) = map iproj (bk_parts b).
 Proof.
   intros Hg Hall. destruct (get_part_in _ _ _ Hg) as [Hin _]. pose proof (Hall p Hin) as Hs.
   assert (Hg' : get_part b (p_idx (part_set_profit p v)) = Some p) by exact Hg.
@@ -376,7 +378,7 @@ Qed.
 Lemma bettor_wins_delta fs : forall b bettor b' effs,
   bettor_wins b bettor fs = Some (b', effs) -> all_unsettled b ->
   all_unsettled b' /\ pool_parts b' = pool_parts b - zsum (map f_pay fs) /\ fee_parts b' = fee_parts b /\
-  bk_status b' = bk_status b /\ map p_idx (bk_parts b') = map p_idx (bk_parts b) /\
+  bk_status b' = bk_status b /\ map iproj (bk_parts b') = map iproj (bk_parts b) /\
   effs = map (fun f => Pay POOL bettor (f_pay f + f_stake f)) fs.
 Proof.
   induction fs as [|f r IH]; intros b bettor b' effs H Hall; cbn [bettor_wins] in H.
@@ -392,7 +394,7 @@ Qed.
 Lemma bettor_loses_delta fs : forall b b',
   bettor_loses b fs = Some b' -> all_unsettled b ->
   all_unsettled b' /\ pool_parts b' = pool_parts b + zsum (map f_stake fs) /\ fee_parts b' = fee_parts b /\
-  bk_status b' = bk_status b /\ map p_idx (bk_parts b') = map p_idx (bk_parts b).
+  bk_status b' = bk_status b /\ map iproj (bk_parts b') = map iproj (bk_parts b).
 Proof.
   induction fs as [|f r IH]; intros b b' H Hall; cbn [bettor_loses] in H.
   - inv H. cbn. repeat split; try assumption; lia.
@@ -466,4 +468,72 @@ Proof.
         destruct (IH _ _ _ _ _ _ _ _ ER Hownr Hcr Hr) as (A1 & A2 & A3 & A4 & A5).
         cbn [map zsum]. rewrite !net_in_app. repeat split; try lia; try (f_equal; [exact B4|exact A4]).
         intros q [Hq|Hq]; [subst q; exact Hpo'|apply A5; exact Hq].
+Qed.
+
+(* ---- ProcessWager never changes the status of the book ------------------------------------------------------ *)
+Lemma st_drop b o i : bk_status (drop_from_queue b o i) = bk_status b.
+Proof. unfold drop_from_queue. destruct (get_queue b o); reflexivity. Qed.
+Lemma st_prep pes : forall b el sel cur b' cur', prep_expos pes b el sel cur = (b', cur') -> bk_status b' = bk_status b.
+Proof.
+  induction pes as [|pe r IH]; intros b el sel cur b' cur' H; cbn [prep_expos] in H; [inv H; reflexivity|].
+  destruct el; rewrite (IH _ _ _ _ _ _ H); reflexivity.
+Qed.
+Lemma st_fold_secondary upds : forall b idx,
+  bk_status (fold_left (fun b e => drop_from_queue (set_expo b e) (e_odds e) idx) upds b) = bk_status b.
+Proof.
+  induction upds as [|e r IH]; intros b idx; cbn [fold_left]; [reflexivity|].
+  rewrite IH, st_drop. reflexivity.
+Qed.
+Lemma iter_betside_status A p0 so s ba fu pr pa bk :
+  iter_betside A p0 so s = (ba, fu, pr, pa, bk) -> bk_status bk = bk_status (ws_book s).
+Proof. unfold iter_betside. intros H. destruct so as [[st pay]|]; inv H; reflexivity. Qed.
+Lemma iter_fulfilled_status A idx it setf p1 pe1 uq bk0 p3 pe3 uq3 bk1 :
+  iter_fulfilled A idx it setf p1 pe1 uq bk0 = Some (p3, pe3, uq3, bk1) -> bk_status bk1 = bk_status bk0.
+Proof.
+  unfold iter_fulfilled. intros H. dmatch H; inv H; try reflexivity. apply st_fold_secondary.
+Qed.
+Lemma iter_refresh_status A idx it p3 bk2 fm uq3 bk5 fm2 uq5 :
+  iter_refresh A idx it p3 bk2 fm uq3 = (bk5, fm2, uq5) -> bk_status bk5 = bk_status bk2.
+Proof.
+  unfold iter_refresh. cbv zeta. intros H.
+  destruct (prep_expos _ bk2 _ _ None) as [bk3 pe4] eqn:EP.
+  pose proof (st_prep _ _ _ _ _ _ _ EP) as H3.
+  destruct (eligible_next _); inv H; cbn [bk_status set_queues set_part book_upd]; exact H3.
+Qed.
+Lemma wager_iter_status A idx s s' : wager_iter A idx s = Some s' -> bk_status (ws_book s') = bk_status (ws_book s).
+Proof.
+  unfold wager_iter. intros H.
+  destruct (fmap_get (ws_fmap s) idx) as [it|]; [|discriminate].
+  destruct (fi_pe it) as [pe0|]; [|discriminate].
+  destruct (iter_switch A (fi_part it) pe0 s) as [[[[p1 pe1] setf] so] c1].
+  destruct (iter_betside A (fi_part it) so s) as [[[[ba fu] pr] pa] bk0] eqn:EB.
+  pose proof (iter_betside_status _ _ _ _ _ _ _ _ _ EB) as Hb0.
+  destruct (iter_fulfilled A idx it setf p1 pe1 (ws_uq s) bk0) as [[[[p3 pe3] uq3] bk1]|] eqn:EF; [|discriminate].
+  pose proof (iter_fulfilled_status _ _ _ _ _ _ _ _ _ _ _ _ EF) as Hb1.
+  destruct ((p_enf p3 =? 0) && eligible_pre p3).
+  - destruct (iter_refresh A idx it p3 _ (ws_fmap s) uq3) as [[bk5 fm2] uq5] eqn:ER.
+    pose proof (iter_refresh_status _ _ _ _ _ _ _ _ _ _ ER) as H5. inv H. cbn [ws_book].
+    rewrite H5. cbn [bk_status set_part set_expo book_upd]. congruence.
+  - inv H. cbn [ws_book bk_status set_part set_expo book_upd]. congruence.
+Qed.
+Lemma wager_loop_status fuel : forall A q s s', wager_loop fuel A q s = Some s' -> bk_status (ws_book s') = bk_status (ws_book s).
+Proof.
+  induction fuel as [|f IH]; intros A q s s' H; destruct q as [|idx rest]; cbn [wager_loop] in H.
+  - inv H. reflexivity.
+  - discriminate.
+  - inv H. reflexivity.
+  - destruct (wager_iter A idx s) as [s1|] eqn:E; [|discriminate].
+    pose proof (wager_iter_status _ _ _ _ E) as H1.
+    destruct ((ws_profit s1 <? PREC) || _); [inv H; exact H1|].
+    rewrite (IH _ _ _ _ H). exact H1.
+Qed.
+Theorem process_wager_status b A betamt profit bettor fee b' parts effs :
+  process_wager b A betamt profit bettor fee = Some (b', parts, effs) -> bk_status b' = bk_status b.
+Proof.
+  unfold process_wager. intros H.
+  destruct (get_queue b (wa_sel A)) as [q|]; [|discriminate].
+  destruct (init_fmap b (wa_sel A)) as [fm|] eqn:EI; [|discriminate].
+  match type of H with context [wager_loop ?f ?a ?qq ?s0] => destruct (wager_loop f a qq s0) as [s|] eqn:EL end; [|discriminate].
+  dmatch H. inv H. cbn [bk_status set_queue book_upd].
+  rewrite (wager_loop_status _ _ _ _ _ EL). reflexivity.
 Qed.
